@@ -1,6 +1,7 @@
 package main
 
 import (
+	"strings"
 	"bytes"
 	"context"
 	"encoding/json"
@@ -322,6 +323,33 @@ func genC03(out *Out, r *Rng, tier string, n int, shard int) {
 				}
 			}
 			undo()
+		}
+		// two different ill-formed values of one typed field: each is rejected - or, if accepted, they are different values and give
+		// different roots (and not the root of some well-formed value either)
+		for _, l := range lits {
+			if !(l.Kind == "time" || l.Kind == "int" || l.Kind == "bool") || !strings.HasPrefix(l.DT, xsdNS) {
+				continue
+			}
+			old := *l
+			var roots []string
+			for _, bad := range []string{"2022-01-01T00:00:00", "2022-13-45", "not a value"} {
+				l.JSON, l.Alts, l.LexAlts = bad, nil, nil
+				if rt, err := rootOf(g.Render(root, plainPresentation(r)), hs, loader, true); err == nil {
+					roots = append(roots, rt)
+				}
+			}
+			*l = old
+			for i := range roots {
+				for j := i + 1; j < len(roots); j++ {
+					if roots[i] == roots[j] {
+						why = append(why, fmt.Sprintf("two different ill-formed values of a field typed %s were accepted and give the same root", l.DT))
+					}
+				}
+				if roots[i] == root0 {
+					why = append(why, fmt.Sprintf("an ill-formed value of a field typed %s gives the root of the well-formed document", l.DT))
+				}
+			}
+			break
 		}
 		c.Tags = append(c.Tags, fmt.Sprintf("renderings:%d", nren), fmt.Sprintf("mutations:%d", nm))
 		c.Prop = propOf(why)
